@@ -123,6 +123,42 @@ class {name}(cohdl.Entity):
     return e
 
 
+def debounce_asbuilt_design(name, period, initial):
+    """the implementation's actual (one sample late) behaviour, recorded as known finding C16-debounce-late: the output changes at
+    the clock where the saturated counter is observed while the input still pushes.  Checking against this description as well
+    keeps every OTHER debounce defect visible while the known one is listed."""
+    e = debounce_design(name, period, initial)
+    C = ref("c")
+    up = [if_(bin_("eq", C, pint(period)), [assign("next", "x", TRUE)], [assign("next", "c", bin_("add", C, pint(1)))])]
+    down = [if_(bin_("eq", C, pint(0)), [assign("next", "x", FALSE)], [assign("next", "c", bin_("sub", C, pint(1)))])]
+    e["ctxs"][0]["body"] = [if_(ref("a"), up, down)]
+    e["family"] = f"debounceasbuilt_{period}_{initial}"
+    return e
+
+
+def runtime_counter_design(name, w):
+    """continuous_counter with a run-time limit: 'When limit is reached the counter continues from zero' - also when the limit is
+    lowered below the current count"""
+    src = f'''
+class {name}(cohdl.Entity):
+    clk = Port.input(Bit)
+    lim = Port.input(Unsigned[{w}])
+    o = Port.output(Unsigned[{w}])
+
+    def architecture(self):
+        ctx = std.SequentialContext(std.Clock(self.clk))
+        cnt = std.continuous_counter(ctx, self.lim)
+        std.concurrent_assign(self.o, cnt)
+'''
+    ty = T("u", w)
+    body = [if_(bin_("ge", ref("c"), ref("lim")), [assign("next", "c", pint(0))], [assign("next", "c", bin_("add", ref("c"), pint(1)))])]
+    e = entity(name, [port("clk", "in", BIT), port("lim", "in", ty), port("o", "out", ty)], [obj("c", "signal", ty, default=0)],
+               [seq_ctx("proc", body), conc_ctx("show", [assign("next", "o", ref("c"))])])
+    e["source_override"] = src
+    e["family"] = f"continuous_counter_runtime_w{w}"
+    return e
+
+
 def component_designs(tier):
     ents = []
     k = 0
@@ -133,10 +169,15 @@ def component_designs(tier):
     for limit in (1, 2, 3, 4, 5, 7):
         ents.append(counter_design(f"E16D_{k:03d}", limit))
         k += 1
-    for period in (1, 2, 3, 4, 5, 6):
+    for period in (1, 2, 3, 4, 5, 6) + (() if tier == "quick" else (7, 8, 9)):
         for init in (0, 1):
             ents.append(debounce_design(f"E16D_{k:03d}", period, init))
             k += 1
+            ents.append(debounce_asbuilt_design(f"E16D_{k:03d}", period, init))
+            k += 1
+    for w in (2, 3):
+        ents.append(runtime_counter_design(f"E16D_{k:03d}", w))
+        k += 1
     return ents
 
 
